@@ -125,9 +125,17 @@ func (s *VaultPKISource) Issue(commonName string) (*tls.Certificate, error) {
 	for _, c := range s.certs {
 		allCerts = append(allCerts, c)
 	}
+	// Publish before the lock is released so that the sets arrive in the
+	// order in which they were made: with one goroutine per set an older
+	// set could overtake and replace a newer one in the store. certsCh has
+	// room for one set, a pending older one is replaced.
+	select {
+	case <-s.certsCh:
+	default:
+	}
+	s.certsCh <- allCerts
 	s.mu.Unlock()
 
-	go func() { s.certsCh <- allCerts }()
 	log.Printf("[INFO] cert: vault: issued cert for %s; serial = %s", commonName, s.formatSerial(x509Cert.SerialNumber))
 
 	return &cert, nil
